@@ -184,7 +184,7 @@ var exactPairs = map[string][]string{
 // received to the consumer through a scripted reader, compare.
 func runRoundTrip(cs Case, content []byte, ch *choice.Chooser) verdict {
 	tag := cs.Codec + "-roundtrip:"
-	w := &swriter{Name: "w", C: ch, Errs: cs.Errs, CloseFaults: true}
+	w := &swriter{Name: "w", C: ch, Errs: cs.Errs, ErrVals: cs.ErrValues, CloseFaults: true}
 	wc := w
 	var prod runtime.Producer
 	var cons runtime.Consumer
@@ -207,10 +207,10 @@ func runRoundTrip(cs Case, content []byte, ch *choice.Chooser) verdict {
 		if s == nil || d == nil {
 			return verdict{class: "harness", what: "unknown pair " + cs.Kind}
 		}
-		sv := s.mk(ch, content, cs.Zero)
+		sv := s.mk(ch, content, cs.Zero, cs.ErrValues)
 		source, payload = sv.data, sv.payload
 		newDest = func() (any, func() (bool, string)) {
-			dv := d.mk(ch)
+			dv := d.mk(ch, cs.ErrValues)
 			dstw = dv.w
 			return dv.data, func() (bool, string) {
 				got := dv.get()
@@ -264,7 +264,7 @@ func runRoundTrip(cs Case, content []byte, ch *choice.Chooser) verdict {
 		return v
 	}
 	wire := append([]byte(nil), w.Buf...)
-	rd := &sreader{Name: "r", Data: wire, C: ch, Errs: cs.Errs, Zero: cs.Zero, CloseFaults: true}
+	rd := &sreader{Name: "r", Data: wire, C: ch, Errs: cs.Errs, ErrVals: cs.ErrValues, Zero: cs.Zero, CloseFaults: true}
 	data, equal := newDest()
 	err, pan = call(func() error { return cons.Consume(rd, data) })
 	if pan != "" {
@@ -376,7 +376,7 @@ func runDest(cs Case, ch *choice.Chooser) verdict {
 	if err := prod.Produce(&wire, val.val); err != nil {
 		return verdict{class: "unexpected-error", what: fmt.Sprintf("%s producer failed into a bytes.Buffer: %v", cs.Codec, err)}
 	}
-	rd := &sreader{Name: "r", Data: wire.Bytes(), C: ch, Errs: cs.Errs, Zero: cs.Zero, CloseFaults: true}
+	rd := &sreader{Name: "r", Data: wire.Bytes(), C: ch, Errs: cs.Errs, ErrVals: cs.ErrValues, Zero: cs.Zero, CloseFaults: true}
 	data := bd.mk()
 	err, pan := call(func() error { return cons.Consume(rd, data) })
 	v := verdict{nontrivial: true}
